@@ -151,6 +151,13 @@ func pathD(v ssa.Value, d int) string {
 				return pathD(a, d+1)
 			}
 		}
+		if s := curProg.HelperSite(x.Parent()); s != nil && belowScopeRoot(x.Parent()) {
+			for i, q := range x.Parent().Params {
+				if q == x && i < len(s.Common().Args) {
+					return pathD(s.Common().Args[i], d+1)
+				}
+			}
+		}
 		if isRecv(x) {
 			return "recv"
 		}
@@ -263,7 +270,42 @@ type Guard struct {
 // derived from the dominator tree: for every dominator D ending in an If, the
 // edge D->S holds if S dominates b (or is b) and S has D as its only predecessor.
 func Guards(b *ssa.BasicBlock) []Guard {
-	return expandPhiGuards(rawGuards(b), 0)
+	res := expandPhiGuards(rawGuards(b), 0)
+	// inside an extracted helper the guards of its call site hold as well
+	fn := b.Parent()
+	for d := 0; d < 3 && fn != nil && belowScopeRoot(fn); d++ {
+		s := curProg.HelperSite(fn)
+		if s == nil {
+			break
+		}
+		res = append(res, expandPhiGuards(rawGuards(s.Block()), 0)...)
+		fn = s.Parent()
+	}
+	return res
+}
+
+// scopeRoot: while a rule runs "in the scope of" a function (Prog.InScope), the
+// extracted helpers below that function are analysed as part of it.
+var scopeRoot *ssa.Function
+
+// InScope runs f with root as scope: forEachCall(root) also visits the calls of
+// root's extracted helpers, Path resolves their parameters to the arguments,
+// Guards adds the guards of their call sites, instrDominates compares across
+// them. Outside a scope every function stands for itself.
+func (p *Prog) InScope(root *ssa.Function, f func()) {
+	old := scopeRoot
+	scopeRoot = root
+	defer func() { scopeRoot = old }()
+	f()
+}
+
+// belowScopeRoot: fn is an extracted helper (transitively) of the current scope root.
+func belowScopeRoot(fn *ssa.Function) bool {
+	if scopeRoot == nil || fn == nil || fn == scopeRoot || curProg == nil {
+		return false
+	}
+	_, ok := curProg.scopeOf(scopeRoot).site[fn]
+	return ok
 }
 
 // expandPhiGuards: a guard on a boolean phi that was computed by a chain of && (all
@@ -767,6 +809,28 @@ func instrIndex(ins ssa.Instruction) int {
 // precedes reports whether instruction a is executed before b on every path
 // that executes b (a dominates b), within one function.
 func instrDominates(a, b ssa.Instruction) bool {
+	// an instruction inside an extracted helper stands at the helper's call site when compared with an
+	// instruction of the caller
+	for d := 0; d < 3 && a.Parent() != b.Parent() && scopeRoot != nil; d++ {
+		if s := curProg.HelperSite(b.Parent()); s != nil && belowScopeRoot(b.Parent()) {
+			b = s
+			continue
+		}
+		break
+	}
+	if a.Parent() != b.Parent() {
+		// a inside a helper, b in the caller after the call: a dominates b if the call does and a dominates every return of the helper
+		if s := curProg.HelperSite(a.Parent()); s != nil && s.Parent() == b.Parent() && belowScopeRoot(a.Parent()) {
+			all := true
+			for _, blk := range a.Parent().Blocks {
+				if _, isRet := blk.Instrs[len(blk.Instrs)-1].(*ssa.Return); isRet && !(a.Block() == blk || a.Block().Dominates(blk)) {
+					all = false
+				}
+			}
+			return all && instrDominates(s, b)
+		}
+		return false
+	}
 	if a.Block() == b.Block() {
 		return instrIndex(a) < instrIndex(b)
 	}
@@ -775,6 +839,11 @@ func instrDominates(a, b ssa.Instruction) bool {
 
 // forEachCall visits every call instruction (call, go, defer) of a function.
 func forEachCall(fn *ssa.Function, f func(site ssa.CallInstruction)) {
+	forEachCallD(fn, f, 0)
+}
+
+// forEachCallOwn visits only the call instructions of fn itself.
+func forEachCallOwn(fn *ssa.Function, f func(site ssa.CallInstruction)) {
 	for _, b := range fn.Blocks {
 		for _, ins := range b.Instrs {
 			if ci, ok := ins.(ssa.CallInstruction); ok {
@@ -782,6 +851,144 @@ func forEachCall(fn *ssa.Function, f func(site ssa.CallInstruction)) {
 			}
 		}
 	}
+}
+
+func forEachCallD(fn *ssa.Function, f func(site ssa.CallInstruction), depth int) {
+	for _, b := range fn.Blocks {
+		for _, ins := range b.Instrs {
+			ci, ok := ins.(ssa.CallInstruction)
+			if !ok {
+				continue
+			}
+			f(ci)
+			// an extracted helper (unexported, one call site in the repository) is part of its caller:
+			// its calls are visited in place, with its parameters standing for the arguments
+			if depth < 3 && curProg != nil && scopeRoot != nil {
+				if _, isCall := ci.(*ssa.Call); isCall {
+					if h := curProg.TransparentHelper(ci); h != nil && h != fn {
+						forEachCallD(h, f, depth+1)
+					}
+				}
+			}
+		}
+	}
+}
+
+// Helper scopes. An "extracted helper" of a scope root is an unexported
+// repository function or method with a body (not a promotion wrapper, not an
+// implementation of an api interface method, not recursive) that has exactly one
+// call site inside the scope (the root and its helpers, three levels deep). It may
+// have other call sites elsewhere: they belong to other scopes.
+type helperScope struct {
+	site map[*ssa.Function]ssa.CallInstruction
+}
+
+func (p *Prog) scopeOf(root *ssa.Function) *helperScope {
+	if p.scopes == nil {
+		p.scopes = map[*ssa.Function]*helperScope{}
+	}
+	if sc, ok := p.scopes[root]; ok {
+		return sc
+	}
+	sc := &helperScope{site: map[*ssa.Function]ssa.CallInstruction{}}
+	p.scopes[root] = sc
+	ambiguous := map[*ssa.Function]bool{}
+	var walk func(fn *ssa.Function, depth int)
+	walk = func(fn *ssa.Function, depth int) {
+		if depth > 3 {
+			return
+		}
+		var found []*ssa.Function
+		forEachCallOwn(fn, func(site ssa.CallInstruction) {
+			if _, isCall := site.(*ssa.Call); !isCall {
+				return
+			}
+			callee := site.Common().StaticCallee()
+			if callee == nil || callee == root || callee == fn || ambiguous[callee] || !p.helperCandidate(callee) {
+				return
+			}
+			if _, dup := sc.site[callee]; dup {
+				delete(sc.site, callee)
+				ambiguous[callee] = true
+				return
+			}
+			sc.site[callee] = site
+			found = append(found, callee)
+		})
+		for _, h := range found {
+			if !ambiguous[h] {
+				walk(h, depth+1)
+			}
+		}
+	}
+	walk(root, 1)
+	for h := range ambiguous {
+		delete(sc.site, h)
+	}
+	return sc
+}
+
+func (p *Prog) helperCandidate(callee *ssa.Function) bool {
+	if v, ok := p.helperCand[callee]; ok {
+		return v
+	}
+	if p.helperCand == nil {
+		p.helperCand = map[*ssa.Function]bool{}
+	}
+	o := originOf(callee)
+	ok := callee.Blocks != nil && o.Object() != nil && !o.Object().Exported() && callee.Parent() == nil && !isWrapper(callee) &&
+		strings.HasPrefix(fnPkgPath(callee), repoMod)
+	if ok && callee.Signature.Recv() != nil && implementsSomeAPIMethod(p, callee) {
+		ok = false
+	}
+	p.helperCand[callee] = ok
+	return ok
+}
+
+// TransparentHelper: the callee of site if it is an extracted helper of the current scope reached through this site.
+func (p *Prog) TransparentHelper(site ssa.CallInstruction) *ssa.Function {
+	if p == nil || !transparentHelpers || scopeRoot == nil {
+		return nil
+	}
+	callee := site.Common().StaticCallee()
+	if callee == nil {
+		return nil
+	}
+	if p.scopeOf(scopeRoot).site[callee] == site {
+		return callee
+	}
+	return nil
+}
+
+// HelperSite returns the call site through which fn belongs to the current scope (nil otherwise).
+func (p *Prog) HelperSite(fn *ssa.Function) ssa.CallInstruction {
+	if p == nil || fn == nil || scopeRoot == nil {
+		return nil
+	}
+	return p.scopeOf(scopeRoot).site[fn]
+}
+
+var transparentHelpers = true
+
+func implementsSomeAPIMethod(p *Prog, fn *ssa.Function) bool {
+	recv := fn.Signature.Recv().Type()
+	sc := p.TypesPkg("api").Scope()
+	for _, n := range sc.Names() {
+		tn, ok := sc.Lookup(n).(*types.TypeName)
+		if !ok {
+			continue
+		}
+		it, ok := tn.Type().Underlying().(*types.Interface)
+		if !ok {
+			continue
+		}
+		for i := 0; i < it.NumMethods(); i++ {
+			if it.Method(i).Name() == fn.Name() && implementsIface(recv, it) {
+				return true
+			}
+		}
+	}
+	return false
 }
 
 // anonFns returns fn and all anonymous functions nested in it.
